@@ -165,9 +165,33 @@ def main(argv):
     print('[%s %s] %d symbolic tasks on %d workers (repo %s)' % (pid, tier, len(tasks), NPROC, REPO), flush=True)
     results = []
     ctxmp = mp.get_context('fork')
-    with ctxmp.Pool(min(NPROC, max(1, len(tasks))), initializer=_init_worker) as pool:
-        for st in pool.imap_unordered(_worker, tasks, chunksize=1):
-            results.append(st)
+    deadline = t_start + float(os.environ.get('VERIF_DEADLINE_S', getattr(mod, 'DEADLINE_S', {}).get(tier, 900 if tier == 'quick' else 5400)))
+    pool = ctxmp.Pool(min(NPROC, max(1, len(tasks))), initializer=_init_worker)
+    killed = 0
+    try:
+        it = pool.imap_unordered(_worker, tasks, chunksize=1)
+        for _ in range(len(tasks)):
+            try:
+                results.append(it.next(timeout=max(1.0, deadline - time.time())))
+            except mp.TimeoutError:
+                killed = len(tasks) - len(results)
+                break
+    finally:
+        pool.terminate()
+        pool.join()
+    if killed:
+        done = {json.dumps(r['task'], sort_keys=True, default=str) for r in results}
+        from . import run as R
+        for t in tasks:
+            if json.dumps((t[0], t[1], t[2]), sort_keys=True, default=str) not in done:
+                st = R.new_stats()
+                st['incomplete'] = True
+                st['wall'] = 0.0
+                st['functions'] = []
+                st['task'] = (t[0], t[1], t[2])
+                st['killed'] = True
+                results.append(st)
+        print('[%s %s] wall-clock deadline reached: %d task(s) stopped and counted as incomplete' % (pid, tier, killed), flush=True)
     # optional extra (non-path) checks of the harness module, e.g. CrossHair runs or calendar validation
     extra = []
     if hasattr(mod, 'extra_checks'):
@@ -187,6 +211,8 @@ def main(argv):
         module, hname, cfg = st['task']
         ph = per_harness.setdefault(hname, dict(tasks=0, paths=0, obligations=0, discharged=0, violations=0, wall=0.0, queries=0))
         ph['tasks'] += 1
+        if not st.get('killed'):
+            ph['finished'] = ph.get('finished', 0) + 1
         ph['paths'] += st['paths']
         ph['obligations'] += st['obligations']
         ph['discharged'] += st['discharged']
@@ -214,7 +240,8 @@ def main(argv):
         for w in st['witnesses']:
             witness_recs.append(dict(module=module, harness=hname, cfg=cfg, inputs=w['inputs'], ufs=w['ufs']))
     for hname, ph in per_harness.items():
-        if ph['obligations'] == 0 and not getattr(mod, 'NO_OBLIGATION_OK', {}).get(hname):
+        ph['allkilled'] = ph.get('finished', 0) == 0
+        if ph['obligations'] == 0 and not ph.get('allkilled') and not getattr(mod, 'NO_OBLIGATION_OK', {}).get(hname):
             vac.append(hname)
 
     if os.environ.get('VERIF_DUMP'):
@@ -358,6 +385,12 @@ def main(argv):
     for hname, ph in sorted(per_harness.items()):
         print('   %-22s tasks=%d paths=%d obligations=%d discharged=%d violations=%d cpu=%.0fs' % (
             hname, ph['tasks'], ph['paths'], ph['obligations'], ph['discharged'], ph['violations'], ph['wall']))
+    slowest = sorted(results, key=lambda r: -r.get('wall', 0.0))[:4]
+    for r in slowest:
+        print('   slow task %.0fs paths=%d %s %s' % (r.get('wall', 0.0), r['paths'], r['task'][1], json.dumps(r['task'][2], default=str)[:220]))
+    for r in results:
+        if r.get('killed'):
+            print('   KILLED task %s %s' % (r['task'][1], json.dumps(r['task'][2], default=str)[:300]))
     if agg['ended']:
         print('   paths ended early:', agg['ended'])
     if agg['unsupported_msgs']:
